@@ -7,7 +7,7 @@
    number-system independent theorems C11_nan_step_raises / C11_nr_wrapper_status). *)
 From Coq Require Import Reals ZArith List Bool Lia Lra QArith.
 From Sky Require Import Result Num NumR G_minimize M_Minimize M_MinimizeX S_Minimize
-  P_Minimize P_MinimizeWrap P_MinimizeScan P_MinimizeDeep.
+  P_Minimize P_MinimizeWrap P_MinimizeScan P_MinimizeDeep P_MinimizeNaN P_MinimizeDom.
 Import ListNotations.
 Open Scope R_scope.
 
@@ -158,10 +158,10 @@ Proof. intros T N. exact (minimize_nr_nan_raises N). Qed.
 Print Assumptions C11_nan_step_raises.
 
 (* ---- LLHRatio.maximize (Newton-Raphson path) ---- *)
-Theorem C11_maximize_nr : forall erfR llh tol max_steps max_reps bounds uniform initials ll x st,
+Theorem C11_maximize_nr : forall erfR ns_pidx llh tol max_steps max_reps bounds uniform initials ll x st,
   (0 <= max_steps)%Z ->
-  maximize_nr (RNum erfR) llh tol max_steps max_reps bounds uniform initials = Ok (ll, x, st) ->
-  ll = fst3 (llh x) /\ (r_flag st <= 0)%Z /\
+  maximize_nr (RNum erfR) ns_pidx llh tol max_steps max_reps bounds uniform initials = Ok (ll, x, st) ->
+  ns_pidx = 0%Z /\ ll = fst3 (llh x) /\ (r_flag st <= 0)%Z /\
   exists lo hi bs i0 rest, bounds = (lo, hi) :: bs /\ initials = i0 :: rest /\ x = r_x st :: rest /\
                            lo <= i0 /\ (lo <= hi -> i0 <= hi -> lo <= r_x st <= hi).
 Proof. exact maximize_nr_value. Qed.
@@ -259,14 +259,14 @@ Proof. intros T N. exact (minimize_scan_status N). Qed.
 Print Assumptions C11_scan_wrapper_status.
 
 (* TCLLHRatio.maximize with NR + scan, end to end *)
-Theorem C11_maximize_scan : forall erfR llh tol max_steps max_reps lo hi bs p2s uniform i0 i1 rest ll x st,
+Theorem C11_maximize_scan : forall erfR ns_pidx llh tol max_steps max_reps lo hi bs p2s uniform i0 i1 rest ll x st,
   (0 <= max_steps)%Z ->
-  maximize_scan (RNum erfR) llh tol max_steps max_reps ((lo, hi) :: bs) p2s uniform (i0 :: i1 :: rest) = Ok (ll, x, st) ->
-  (r_flag st <= 0)%Z /\
+  maximize_scan (RNum erfR) ns_pidx llh tol max_steps max_reps ((lo, hi) :: bs) p2s uniform (i0 :: i1 :: rest) = Ok (ll, x, st) ->
+  ns_pidx = 0%Z /\ (r_flag st <= 0)%Z /\
   (exists p2, In p2 p2s /\ x = r_x st :: p2 :: rest /\ ll = fst3 (llh x) /\ lo <= i0 /\
               (lo <= hi -> i0 <= hi -> lo <= r_x st <= hi)) /\
   (forall q, In q p2s -> exists xq rq,
-      nr1d_vec (RNum erfR) (neg_obj (RNum erfR) llh) tol max_steps ((lo, hi) :: bs) (i0 :: q :: rest)
+      nr1d_vec (RNum erfR) (neg_obj (RNum erfR) ns_pidx llh) tol max_steps ((lo, hi) :: bs) (i0 :: q :: rest)
         = Ok (xq :: q :: rest, rq) /\
       fst3 (llh (xq :: q :: rest)) <= ll) /\
   (In i1 p2s ->
@@ -375,6 +375,128 @@ Example C11_wrapper_nan_refuted :
 Proof.
   split; [vm_compute; reflexivity|].
   exists (fun _ _ => Ok ([XNaN], xz 7, true)), [XNaN], (xz 7). repeat split; vm_compute; reflexivity.
+Qed.
+
+(* ================= third layer (audit) ================= *)
+
+(* a function value that is not a number is never a converged NR result, in every number system *)
+Theorem C11_nr_nan_value_flagged : forall (T : Type) (N : Num T) func tol max_steps bounds initials x r,
+  nr1d_vec N func tol max_steps bounds initials = Ok (x, r) ->
+  nisnan N (r_f r) = true -> (0 < r_flag r)%Z.
+Proof. intros T N. exact (nr1d_vec_nan N). Qed.
+Print Assumptions C11_nr_nan_value_flagged.
+
+Theorem C11_nr_wrapper_value_not_nan : forall (T : Type) (N : Num T) func tol max_steps max_reps bounds
+    uniform initials x f st reps,
+  minimize_nr N func tol max_steps max_reps bounds uniform initials = Ok (x, f, st, reps) ->
+  nisnan N f = false.
+Proof. intros T N. exact (minimize_nr_value_not_nan N). Qed.
+Print Assumptions C11_nr_wrapper_value_not_nan.
+
+(* NR + scan in every number system in which NaN compares false: the result is ONE scan step's result
+   (x, f, flag, step, trace of the same run); its value is NaN only if every scan step's value is NaN, and then
+   the flag is positive (not converged) *)
+Theorem C11_scan_any_number_system : forall (T : Type) (N : Num T) func tol max_steps bounds i0 rest,
+  (forall a b, nisnan N a = true -> nltb N a b = false) ->
+  forall p2s i1 x r,
+  scan2d N func tol max_steps bounds p2s (i0 :: i1 :: rest) = Ok (x, r) ->
+  (exists p2 r0, In p2 p2s /\ nr1d_vec N func tol max_steps bounds (i0 :: p2 :: rest) = Ok (x, r0) /\
+     r_x r = r_x r0 /\ r_f r = r_f r0 /\ r_flag r = r_flag r0 /\ r_step r = r_step r0 /\
+     r_trace r = r_trace r0) /\
+  (nisnan N (r_f r) = true ->
+     (0 < r_flag r)%Z /\
+     forall q, In q p2s -> exists xr,
+       nr1d_vec N func tol max_steps bounds (i0 :: q :: rest) = Ok xr /\ nisnan N (r_f (snd xr)) = true).
+Proof. intros T N. exact (scan2d_any_number_system N). Qed.
+Print Assumptions C11_scan_any_number_system.
+
+(* ns must be the first global floating parameter for the NR path: otherwise ValueError (NR varies x[0]) *)
+Theorem C11_maximize_ns_first : forall (T : Type) (N : Num T) ns_pidx llh tol max_steps max_reps bounds p2s
+    uniform initials,
+  ns_pidx <> 0%Z ->
+  maximize_nr N ns_pidx llh tol max_steps max_reps bounds uniform initials = Err ValueError /\
+  maximize_scan N ns_pidx llh tol max_steps max_reps bounds p2s uniform initials = Err ValueError.
+Proof. intros T N. exact (maximize_nr_ns_first N). Qed.
+Print Assumptions C11_maximize_ns_first.
+
+(* generic LLHRatio.maximize around any implementation oracle *)
+Theorem C11_maximize_gen : forall (T : Type) (N : Num T) (St : Type)
+    (impl : Z -> list T -> res (list T * T * St)) (conv rep : St -> bool)
+    (llh : list T -> res T) bounds uniform max_reps initials ll x st,
+  maximize_gen N impl conv rep llh bounds uniform max_reps initials = Ok (ll, x, st) ->
+  conv st = true /\
+  exists fmin reps,
+    minimize N impl conv rep (fun x => do f <- llh x; Ok (mx_neg_f_gen N f)) bounds uniform max_reps initials
+      = Ok (x, fmin, st, reps) /\ ll = mx_llmax_gen N fmin.
+Proof. intros T N St. exact (maximize_gen_spec N). Qed.
+Print Assumptions C11_maximize_gen.
+
+(* which status field the oracle implementations' has_converged / is_repeatable read (identity kernels: the
+   content is the translator's selector; scipy / iminuit / CRS: bool(status['success'])) *)
+Theorem C11_oracle_status_reading : forall b w,
+  (scipy_converged b = b /\ iminuit_converged b = b /\ crs_converged b = b /\
+   scipy_repeatable = false /\ iminuit_repeatable = true /\ crs_repeatable = true) /\
+  (lbfgs_converged w = true <-> w = 0%Z) /\ (lbfgs_rep_flag w = true <-> w = 2%Z).
+Proof. exact thm_oracle_status_reading. Qed.
+Print Assumptions C11_oracle_status_reading.
+
+(* the convexity theorems with the hypothesis required only on the evaluated domain [lo,hi] ∪ {init}
+   (a real -log Lambda is NaN for ns >= N and cannot be convex on all of R) *)
+Theorem C11_concave_bound_exit_on : forall erfR obj tol lo hi init max_steps r,
+  (0 <= max_steps)%Z -> lo < hi ->
+  convex_on (nr_domain lo hi init) (fun x => fst3 (obj x)) (fun x => snd3 (obj x)) ->
+  nr1d (RNum erfR) obj tol lo hi max_steps init = Ok r ->
+  (r_flag r = (-2)%Z -> 0 < thd3 (obj lo) ->
+     argmin_on (fun x => fst3 (obj x)) lo hi (r_x r) /\ 0 < snd3 (obj lo)) /\
+  (r_flag r = (-1)%Z -> 0 < thd3 (obj hi) ->
+     argmin_on (fun x => fst3 (obj x)) lo hi (r_x r) /\ snd3 (obj hi) < 0).
+Proof. exact bound_exit_on. Qed.
+Print Assumptions C11_concave_bound_exit_on.
+
+Theorem C11_not_below_initial_on : forall erfR obj tol lo hi init max_steps r,
+  (0 <= max_steps)%Z -> lo <= hi -> init <= hi ->
+  convex_on (nr_domain lo hi init) (fun x => fst3 (obj x)) (fun x => snd3 (obj x)) ->
+  nr1d (RNum erfR) obj tol lo hi max_steps init = Ok r ->
+  r_f r <= fst3 (obj init) + Rabs (snd3 (obj (r_x r))) * Rabs (init - r_x r).
+Proof. exact not_below_initial_on. Qed.
+Print Assumptions C11_not_below_initial_on.
+
+Theorem C11_nr_near_stationary_on : forall erfR obj tol lo hi init max_steps r m xs,
+  (0 <= max_steps)%Z -> 0 < m ->
+  (forall x y, nr_domain lo hi init x -> nr_domain lo hi init y ->
+     fst3 (obj x) + snd3 (obj x) * (y - x) + m / 2 * (y - x) * (y - x) <= fst3 (obj y)) ->
+  lo <= xs <= hi -> snd3 (obj xs) = 0 ->
+  nr1d (RNum erfR) obj tol lo hi max_steps init = Ok r -> r_flag r = 0%Z ->
+  Rabs (r_x r - xs) <= tol + 1 / 10 / m.
+Proof. exact near_stationary_on. Qed.
+Print Assumptions C11_nr_near_stationary_on.
+
+(* executed in the number system with NaN: f = NaN with finite derivatives at the FIRST scan value — the scan
+   returns the finite best of the later steps (warnflag 0); NR-1D on a NaN value alone: warnflag 2, the wrapper
+   raises; the premise of C11_scan_any_number_system holds in that number system *)
+Example C11_scan_nan_witness :
+  let func := fun x : list xq =>
+     match x with
+     | ns :: g :: _ =>
+         (if xq_eqb g (xz 0) then XNaN
+          else xq_add (xq_mul (xq_add ns (xz (-3))) (xq_add ns (xz (-3)))) g,
+          xq_mul (xz 2) (xq_add ns (xz (-3))), xz 2)
+     | _ => (XNaN, XNaN, XNaN) end in
+  (forall a b, nisnan XNum a = true -> nltb XNum a b = false) /\
+  (match minimize_scan XNum func (XFin (1 # 1000)) 100 100 [(xz 0, xz 10); (xz 0, xz 1)]
+           [xz 0; XFin (1 # 2); xz 1] (fun _ => []) [xz 1; xz 0] with
+   | Ok (x, f, st, _) =>
+       (match x with ns :: g :: _ => xq_eqb ns (xz 3) && xq_eqb g (XFin (1 # 2)) | _ => false end,
+        xq_eqb f (XFin (1 # 2)), r_flag st)
+   | Err _ => (false, false, 9%Z) end) = (true, true, 0%Z) /\
+  (match nr1d_vec XNum func (XFin (1 # 1000)) 100 [(xz 0, xz 10); (xz 0, xz 1)] [xz 1; xz 0] with
+   | Ok (_, r) => (nisnan XNum (r_f r), r_flag r) | Err _ => (false, 9%Z) end) = (true, 2%Z) /\
+  minimize_nr XNum func (XFin (1 # 1000)) 100 100 [(xz 0, xz 10); (xz 0, xz 1)] (fun _ => []) [xz 1; xz 0]
+    = Err ValueError.
+Proof.
+  cbv zeta. split.
+  - intros a b Ha. destruct a; try discriminate. reflexivity.
+  - repeat split; vm_compute; reflexivity.
 Qed.
 
 (* ---- non-vacuity ---- *)
